@@ -259,6 +259,8 @@ impl FancyState {
 
         // Move cursor up to the first printed line, for overprinting.
         write!(&mut buf, "\x1b[{}A", lines).ok();
+        #[cfg(feature = "verif")]
+        crate::verif::on_frame(&buf);
         std::io::stdout().write_all(&buf).unwrap();
 
         // Set up buf for next print.
@@ -401,6 +403,44 @@ pub fn verif_print_progress(counts: [usize; 6], tasks: &[(String, u64, Option<Ve
         }
     }
     state.print_progress();
+}
+
+/// The display state without its thread: fed through the same entry points
+/// as the real console and painted on request.
+#[cfg(feature = "verif")]
+pub struct VerifFancy(FancyState);
+
+#[cfg(feature = "verif")]
+impl VerifFancy {
+    pub fn new(verbose: bool) -> Self {
+        VerifFancy(FancyState {
+            done: false,
+            pending: Vec::new(),
+            dirty: false,
+            dirty_cond: Arc::new(Condvar::new()),
+            counts: StateCounts::default(),
+            tasks: VecDeque::new(),
+            verbose,
+        })
+    }
+    pub fn update(&mut self, counts: &StateCounts) {
+        self.0.update(counts)
+    }
+    pub fn task_started(&mut self, id: BuildId, build: &Build) {
+        self.0.task_started(id, build)
+    }
+    pub fn task_output(&mut self, id: BuildId, line: Vec<u8>) {
+        self.0.task_output(id, line)
+    }
+    pub fn task_finished(&mut self, id: BuildId, build: &Build, result: &TaskResult) {
+        self.0.task_finished(id, build, result)
+    }
+    pub fn log(&mut self, msg: &str) {
+        self.0.log(msg)
+    }
+    pub fn paint(&mut self) {
+        self.0.print_progress()
+    }
 }
 
 #[cfg(test)]
